@@ -57,8 +57,10 @@ func vfEvalC12(in []*big.Int) ([]*big.Int, []*big.Int) {
 	case 4:
 		t := d.Int()
 		ipt := []rpc.IPType{rpc.IPType_TypeVPCIP, rpc.IPType_TypeVPCENI, rpc.IPType_TypeENIMultiIP, rpc.IPType(7)}[t&3]
-		h4, i4, n4, p4, g4 := d.Bool(), d.Big(), d.Big(), d.Int(), d.Big()
-		h6, i6, n6, p6, g6 := d.Bool(), d.Big(), d.Big(), d.Int(), d.Big()
+		// family flag: 0 nothing sent, 1 address + subnet + gateway, 2 subnet + gateway but no pod address (e.g. an IPv4-only pod on a
+		// dual-stack interface: LocalIPResource.ToRPC fills PodCIDR and GatewayIP from the interface), 3 address + gateway but no subnet
+		h4, i4, n4, p4, g4 := d.Int(), d.Big(), d.Big(), d.Int(), d.Big()
+		h6, i6, n6, p6, g6 := d.Int(), d.Big(), d.Big(), d.Int(), d.Big()
 		heni, trunk, vid, erdma, egh, eg4 := d.Bool(), d.Bool(), d.Int(), d.Bool(), d.Bool(), d.Big()
 		hpod, ing, egr := d.Bool(), d.Big(), d.Big()
 		ifc, dr, aifc := d.Int(), d.Bool(), d.Int()
@@ -66,11 +68,23 @@ func vfEvalC12(in []*big.Int) ([]*big.Int, []*big.Int) {
 		nr := d.Int()
 		alloc := &rpc.NetConf{IfName: vfIfNames[ifc%len(vfIfNames)], DefaultRoute: dr}
 		bi := &rpc.BasicInfo{PodIP: &rpc.IPSet{}, PodCIDR: &rpc.IPSet{}, GatewayIP: &rpc.IPSet{}, ServiceCIDR: &rpc.IPSet{IPv4: "172.16.0.0/16"}}
-		if h4 {
-			bi.PodIP.IPv4, bi.PodCIDR.IPv4, bi.GatewayIP.IPv4 = vfIPStr(i4, 32), fmt.Sprintf("%s/%d", vfIPStr(n4, 32), p4), vfIPStr(g4, 32)
+		if h4 != 0 {
+			bi.GatewayIP.IPv4 = vfIPStr(g4, 32)
+			if h4 != 2 {
+				bi.PodIP.IPv4 = vfIPStr(i4, 32)
+			}
+			if h4 != 3 {
+				bi.PodCIDR.IPv4 = fmt.Sprintf("%s/%d", vfIPStr(n4, 32), p4)
+			}
 		}
-		if h6 {
-			bi.PodIP.IPv6, bi.PodCIDR.IPv6, bi.GatewayIP.IPv6 = vfIPStr(i6, 128), fmt.Sprintf("%s/%d", vfIPStr(n6, 128), p6), vfIPStr(g6, 128)
+		if h6 != 0 {
+			bi.GatewayIP.IPv6 = vfIPStr(g6, 128)
+			if h6 != 2 {
+				bi.PodIP.IPv6 = vfIPStr(i6, 128)
+			}
+			if h6 != 3 {
+				bi.PodCIDR.IPv6 = fmt.Sprintf("%s/%d", vfIPStr(n6, 128), p6)
+			}
 		}
 		alloc.BasicInfo = bi
 		if heni {
@@ -181,8 +195,19 @@ func vfGenC12(r *vfRand) [][]*big.Int {
 		n4, i4, g4, p4 := vfNet(r, 32)
 		n6, i6, g6, p6 := vfNet(r, 128)
 		b.I(4, r.Range(1, 2))
-		b.Bool(stack != 1).Big(i4).Big(n4).I(p4).Big(g4)
-		b.Bool(stack != 0).Big(i6).Big(n6).I(p6).Big(g6)
+		fl := func(on bool) int {
+			switch {
+			case on && r.Chance(1, 20):
+				return 3
+			case on:
+				return 1
+			case r.Chance(1, 4):
+				return 2 + r.Intn(2)
+			}
+			return 0
+		}
+		b.I(fl(stack != 1)).Big(i4).Big(n4).I(p4).Big(g4)
+		b.I(fl(stack != 0)).Big(i6).Big(n6).I(p6).Big(g6)
 		_, _, eg, _ := vfNet(r, 32)
 		b.Bool(r.Chance(5, 6)).Bool(r.Chance(1, 3)).I(r.Range(0, 4000)).Bool(r.Chance(1, 5)).Bool(r.Chance(1, 2)).Big(eg)
 		lim := func() int {
